@@ -47,6 +47,35 @@ Allowed(set, ser, avg, mask, new, dn) ==
        /\ \E ch \in Choices(set, ser, avg, sel) :
             ValidChoice(set, ser, avg, sel, ch) /\ Explains(ser, avg, sel, ch, new, dn)
 
+\* The same predicate as a search (what the trace specification evaluates): the series are taken one by one,
+\* one optimal path each, accumulating per position the number of aligned points and their coordinate sums.
+\* It visits at most the PRODUCT of the per-series numbers of optimal paths, where the function space Choices
+\* has (their sum)^|sel| elements.  MC_DBA checks AllowedSearch = Allowed on its whole slice.
+PathCount(p, n) == [i \in 1..n |-> Cardinality({q \in 1..Len(p) : p[q][1] = i - 1})]
+PathSums(p, s, n, nd) ==
+    [i \in 1..n |-> [d \in 1..nd |-> SumSeq([q \in 1..Len(p) |-> IF p[q][1] = i - 1 THEN s[p[q][2] + 1][d] ELSE 0])]]
+RECURSIVE SearchFrom(_, _, _, _, _, _, _, _)
+SearchFrom(ops, ser, todo, cnt, sums, new, dn, nd) ==
+    IF todo = {}
+    THEN \A i \in 1..Len(cnt) : \A d \in 1..nd : cnt[i] > 0 /\ new[i][d] * cnt[i] = dn * sums[i][d]
+    ELSE LET k == CHOOSE x \in todo : \A y \in todo : x <= y
+             n == Len(cnt)
+             opk == (CHOOSE pr \in ops : pr[1] = k)[2]
+         IN \E p \in opk :
+              LET pc == PathCount(p, n)
+                  ps == PathSums(p, ser[k], n, nd)
+              IN SearchFrom(ops, ser, todo \ {k}, [i \in 1..n |-> cnt[i] + pc[i]],
+                            [i \in 1..n |-> [d \in 1..nd |-> sums[i][d] + ps[i][d]]], new, dn, nd)
+AllowedSearch(set, ser, avg, mask, new, dn) ==
+    LET sel == Selected(mask)
+        n == Len(avg)
+        nd == Len(avg[1])
+        \* a set of pairs: built once (a function constructor would be re-evaluated at every application)
+        ops == {<<k, OptimalPaths(AlignCase(set, avg, ser[k]))>> : k \in sel}
+    IN /\ Len(new) = n
+       /\ \A i \in 1..n : Len(new[i]) = nd
+       /\ SearchFrom(ops, ser, sel, [i \in 1..n |-> 0], [i \in 1..n |-> [d \in 1..nd |-> 0]], new, dn, nd)
+
 \* objective: sum of (internal-domain, i.e. squared) DTW costs from an average to the selected series
 Scale(s, f) == [q \in 1..Len(s) |-> [d \in 1..Len(s[q]) |-> s[q][d] * f]]
 Objective(set, ser, a, sel, f) ==
